@@ -76,7 +76,16 @@ def write_and_check(fills, version, code, dest, res, tag, code_fits=True):
             raised = e
         after = open(path, 'rb').read() if os.path.exists(path) else None
         tcls = tag[0]
-        if not code_fits:
+        if code_fits is None:
+            # either outcome is allowed: refused with the destination untouched, or written losslessly
+            if raised is not None:
+                if after != before:
+                    res.violation('C04|oversize-damaged-destination|%s' % tcls,
+                                  'refused cart but the destination changed', case)
+                else:
+                    res.outcome(('refused', dest is None))
+                return
+        elif not code_fits:
             if raised is None:
                 res.violation('C04|oversize-accepted|%s' % tcls,
                               'code of %d bytes does not fit the %d-byte code area but the cart was written' % (
@@ -308,6 +317,7 @@ def region_cart(i, tier):
 
 
 VERSIONS = list(range(0, 42)) + [255]
+LONG = {'quick': [32768, 65535, 65536, 66000], 'thorough': [16384, 32767, 32768, 49152, 65280, 65535, 65536, 65537, 65792, 66000, 131072, 131073]}
 U60 = [b'function _update60()\n x=1\nend\n', b'-- _update60', b'_update60=1', b'x="_update60"\n' * 3,
        b'function _update60() end\nfunction _draw() cls() end\n' + b'x=x+1 y=y+1 z=z+1\n' * 20]
 
@@ -320,8 +330,9 @@ def shards(tier, seed):
     items += [('small', lo, min(len(sc), lo + 6)) for lo in range(0, len(sc), 6)]
     items += [('cap', tier, c) for c in capacity_cases(tier)]
     items += [('u60',), ('endings',), ('chain', tier), ('history',)]
+    items += [('long', n) for n in LONG[tier]]
     items += [('programs', tier, k) for k in range(8)]
-    items.sort(key=lambda it: 0 if it[0] == 'cap' else 1)
+    items.sort(key=lambda it: 0 if it[0] in ('cap', 'long') else 1)
     return items
 
 
@@ -372,6 +383,13 @@ def run_shard(item):
         else:
             code = comment_wrap(lcg_text(d, LOWER + b'    ' + b'ee', d))
             write_and_check(fills, 33, code, None, res, ('mid', d))
+    elif kind == 'long':
+        # highly repetitive code around the 16-bit length field of the :c: header: either refused or lossless
+        n = item[1]
+        line = b'x=x+1 y=y+1 z=z+1 w=w+1 print(x+y+z+w)\n'
+        code = (line * (n // len(line) + 1))[:n - 1] + b'\n'
+        write_and_check(carts.region_fills(0, 1), 33, code, 1 if n % 2 else None, res, ('long', n), code_fits=None)
+        res.sample({'family': 'long', 'code_len': len(code)})
     elif kind == 'u60':
         for i, code in enumerate(U60):
             for dest in (None, 1):
@@ -422,6 +440,8 @@ def replay(case):
             write_and_check({}, 33, code, dest, res, tag)
     elif kind in ('cap-raw', 'cap-comp', 'mid'):
         res.merge(run_shard(('cap', 'thorough', tag)))
+    elif kind == 'long':
+        res.merge(run_shard(('long', tag[1])))
     elif kind == 'u60':
         for dest in (None, 1):
             write_and_check(carts.region_fills(0, 0), 33, U60[tag[1]], dest, res, tag)
